@@ -635,6 +635,20 @@ func checkGhost(c *Ctx) {
 				if l, ok := gg.lin(cs.Common().Args[1]); ok && l.eq(linAtom(recv+".end").add(linAtom(recv+".begin"), -1)) {
 					widthOK = true
 				}
+				// or the receiver's own width(), which is end - begin
+				if wc, ok := Unwrap(cs.Common().Args[1]).(*ssa.Call); ok && !wc.Call.IsInvoke() && len(wc.Call.Args) == 1 {
+					if wf := wc.Call.StaticCallee(); wf != nil && wf.Name() == "width" && wf.Blocks != nil && (IsParam(wc.Call.Args[0], ex.Params[0]) || Unwrap(wc.Call.Args[0]) == ssa.Value(ex.Params[0])) {
+						wg := &gctx{c, wf}
+						wr := wf.Params[0].Name()
+						for _, b := range wf.Blocks {
+							if ret, isRet := b.Instrs[len(b.Instrs)-1].(*ssa.Return); isRet && len(ret.Results) == 1 {
+								if l, ok := wg.lin(ret.Results[0]); ok && l.eq(linAtom(wr+".end").add(linAtom(wr+".begin"), -1)) {
+									widthOK = true
+								}
+							}
+						}
+					}
+				}
 			}
 		}
 		c.Oblige("C14.cut", ShortName(ex), c.Prog.FuncPos(ex), shiftOK && widthOK, "cutExpr.expr must shift right by begin*8 bits and set the width to end-begin bytes")
